@@ -1016,6 +1016,45 @@ def c12(tier, seed):
         runs.append({"name": name, "steps": out, "panic": bool(r.get("panic")), "stall": bool(r.get("stall")), "ended": ended,
                      "sent": len(seq), "processed": sum(1 for st in steps if st["type"] == "XR" and st["ev"] != "error.platform.cancel"),
                      "jid": jid})
+    # a target session that existed but has finished is unreachable as well (two sessions: scenario harness)
+    sjobs, smeta = [], {}
+    for dm in dms:
+        hdr = '<scxml xmlns="http://www.w3.org/2005/07/scxml" version="1.0" datamodel="%s" name="%s">'
+        bdoc = (hdr % (dm, "B")) + '<state id="s"><transition event="quit" target="f"/></state><final id="f"/></scxml>'
+        snd = '<send event="hello" targetexpr="\'#_scxml_\' + peer"/>'
+        adoc = (hdr % (dm, "A")) + '<datamodel><data id="peer" expr="0"/></datamodel><state id="s">' \
+            '<transition event="init"><assign location="peer" expr="_event.data.peer"/></transition>' \
+            '<transition event="probe"><script>mark(\'alive\')</script></transition>' \
+            '<transition event="o1">' + snd + '</transition><transition event="o2">' + snd + '</transition></state></scxml>'
+        for entry in ("execute",):
+            jid = len(sjobs) + 1
+            job = {"id": jid, "sessions": [{"name": "A", "xml": adoc}, {"name": "B", "xml": bdoc, "entry": entry}], "timeout_ms": 20000,
+                   "steps": [{"start": "A"}, {"start": "B"}, {"settle": 30}, {"send": "A", "event": {"name": "init", "params": {"peer": "$sid:B"}}},
+                             {"send": "A", "event": "o1"}, {"send": "A", "event": "probe"}, {"settle": 30}, {"send": "B", "event": "quit"},
+                             {"await_end": "B"}, {"send": "A", "event": "o2"}, {"send": "A", "event": "probe"}, {"settle": 40}]}
+            if dm == "ecmascript":
+                job["options"] = {"ecma:strict": ""}
+            sjobs.append(job)
+            smeta[jid] = ("finished-session:" + dm, adoc + "\n" + bdoc)
+    sres = run_scen_jobs(sjobs, wd, threads=2)
+    for jid, (name, xml) in smeta.items():
+        r = sres[jid]
+        if r.get("errors"):
+            raise ToolError("C12 scenario %s: %s" % (name, r["errors"]))
+        aidx = [n for n in r["names"] if n[0] == "A"][0][1]
+        recs = [x[:-1] for sl in r["sessions"] if sl["idx"] == aidx for x in sl["recs"]]
+        steps, ended = flat_steps(recs)
+        kinds = {"o1": "ok", "o2": "nosession", "init": "ok"}
+        out = []
+        for st in steps:
+            kind = "probe" if st["ev"] == "probe" and st["type"] == "XR" else kinds.get(st["ev"], "ok") if st["type"] == "XR" else "ok"
+            out.append({"ev": st["ev"], "kind": kind, "enq": st["enq"], "alive": any(m[0] == "alive" for m in st["marks"])})
+        jid2 = 100000 + jid
+        meta[jid2] = (name, xml, kinds, None, ["init", "o1", "probe", "o2", "probe"])
+        results[jid2] = {"panic": r.get("panics") or None, "stall": r.get("stalls") or None}
+        runs.append({"name": name, "steps": out, "panic": bool(r.get("panics")), "stall": bool(r.get("stalls")), "ended": ended,
+                     "sent": 5, "processed": sum(1 for st in steps if st["type"] == "XR" and st["ev"] != "error.platform.cancel"),
+                     "jid": jid2})
     with open(os.path.join(wd, "traces.ndjson"), "w") as f:
         for r in runs:
             f.write(json.dumps(r) + "\n")
